@@ -30,7 +30,15 @@ def dataclass_to_dict(obj: Any) -> Any:
 
 def format_colang_parsing_error_message(exception, colang_content):
     """Improves readability of Colang error messages."""
-    line = colang_content.splitlines()[exception.line - 1]
+    lines = colang_content.splitlines()
+    line_no = getattr(exception, "line", None)
+    # NOTE: not every exception raised while parsing carries a (valid) source position.
+    if type(line_no) is not int or not 1 <= line_no <= len(lines):
+        return f"{exception}"
+    line = lines[line_no - 1]
     # NOTE: for Colang 1.0 parsing exceptions, there is no "column" attribute.
-    marker = " " * (getattr(exception, "column", 1) - 1) + "^"
+    column = getattr(exception, "column", 1)
+    if type(column) is not int:
+        column = 1
+    marker = " " * (column - 1) + "^"
     return f"{exception}:\n{line}\n{marker}"
